@@ -1,5 +1,6 @@
 import SqlProofs.FilterSpec
 import SqlProofs.FormatSpec
+import SqlProofs.IndentSpec
 /-!
 # C06 — layout formatting never changes the significant tokens of the SQL
 
@@ -20,5 +21,14 @@ theorem serializer_lines_rstripped : type_of% @serializer_no_trailing_blank := @
 /-- `format` (full pipeline model) never lets RecursionError or StopIteration out, and rejects invalid options before touching the input -/
 theorem format_error_kinds : type_of% @Sql.format_error_kinds := @Sql.format_error_kinds
 theorem format_validates_first : type_of% @Sql.format_validates_first := @Sql.format_validates_first
+
+/-- **reindent only touches whitespace**: for every option set (char, width, indent_after_first, indent_columns, wrap_after, comma_first, compact), every filter state and
+every tree on which `ReindentFilter` does not raise, the sequence of non-whitespace leaves (type and value) is unchanged -/
+theorem reindent_preserves_significant : type_of% @reindent_preserves_sig := @reindent_preserves_sig
+/-- **reindent_aligned only touches whitespace** -/
+theorem aligned_preserves_significant : type_of% @aligned_preserves_sig := @aligned_preserves_sig
+/-- for a filter plan made of layout filters only (spaces, strip_whitespace, reindent, aligned) the tree handed to the serializer has the significant leaves of the grouped tree, statement by statement -/
+theorem layout_stack_preserves_significant : type_of% @runStmtObjs_layout_sig := @runStmtObjs_layout_sig
+theorem layout_plan_is_layout_stack : type_of% @layout_plan_objs := @layout_plan_objs
 
 end Sql.C06
